@@ -169,6 +169,19 @@ def accept_predicate(ctx, pstate):
                 return out == 'accept'
         return False
 
+    # every guard must be evaluable on abstract stacks, otherwise the
+    # comparison below would report the model's ignorance as a difference
+    for toks, vals in ((('check',), (('leaf', 0),)),
+                       (('string',), (('str', 's'),)),
+                       (('(',), (('str', '('),)),
+                       (('check', 'and'), (('leaf', 0), ('str', 'and'))),
+                       ((), ())):
+        pred(toks, vals)
+    if unknown:
+        raise AnalysisError(
+            'the result accessor %s tests `%s`, which is not a comparison of '
+            'the stacks with literals: the accepted token strings cannot be '
+            'read off the source' % (res.qual, unknown[0]))
     return pred, rows, unknown, res
 
 
@@ -1029,7 +1042,53 @@ def _known_single(p, sym, nonempty):
     return lo == 1 and hi == 1
 
 
-def check_list(ctx, classes):
+def _known_not_single(p, sym):
+    """Do the path conditions exclude len(<sym>) == 1?"""
+    lo, hi, ne = 0, None, set()
+    for c in p.conds:
+        if c.kind != 'test':
+            continue
+        e = c.expr
+        if isinstance(e, ast.Name) and e.id == sym:
+            if c.pol:
+                lo = max(lo, 1)
+            else:
+                hi = 0
+            continue
+        if not (isinstance(e, ast.Compare) and len(e.ops) == 1):
+            continue
+        a, b, op = e.left, e.comparators[0], e.ops[0]
+        flip = False
+        if isinstance(a, ast.Constant):
+            a, b, flip = b, a, True
+        if not (isinstance(a, ast.Call) and U(a) == 'len(%s)' % sym
+                and isinstance(b, ast.Constant)
+                and isinstance(b.value, int)):
+            continue
+        k = b.value
+        name = type(op).__name__
+        if flip:
+            name = {'Lt': 'Gt', 'Gt': 'Lt', 'LtE': 'GtE',
+                    'GtE': 'LtE'}.get(name, name)
+        if not c.pol:
+            name = {'Lt': 'GtE', 'GtE': 'Lt', 'Gt': 'LtE', 'LtE': 'Gt',
+                    'Eq': 'NotEq', 'NotEq': 'Eq'}.get(name, name)
+        if name == 'Eq':
+            lo, hi = max(lo, k), k if hi is None else min(hi, k)
+        elif name == 'NotEq':
+            ne.add(k)
+        elif name == 'Lt':
+            hi = k - 1 if hi is None else min(hi, k - 1)
+        elif name == 'LtE':
+            hi = k if hi is None else min(hi, k)
+        elif name == 'Gt':
+            lo = max(lo, k + 1)
+        elif name == 'GtE':
+            lo = max(lo, k)
+    return lo >= 2 or (hi is not None and hi < 1) or 1 in ne
+
+
+def check_list(ctx, classes, arity_rule=None):
     """The list-of-lists form is the OR over its entries of the AND over
     each entry's members, every member parsed as a single check and no
     non-empty entry or member left out: decided on the translator's paths
@@ -1054,6 +1113,7 @@ def check_list(ctx, classes):
     paths = en.run()
     W = lambda line: '%s:%d' % (ctx.where(mod, f.node).split(':')[0], line)
     reported = set()
+    arity_seen = set()
 
     def ob(ok, line, construct, detail, **kw):
         k = (construct, detail)
@@ -1154,6 +1214,38 @@ def check_list(ctx, classes):
         n_paths += 1
         R = term(p.outcome.expr)
         line = p.outcome.line
+        if arity_rule is not None:
+            # every combinator built over a collection: the path excludes
+            # that the collection has exactly one element (a one-operand
+            # and/or prints as `(x)`, which parses back to `x`)
+            def combs(t):
+                if isinstance(t, tuple):
+                    if t and t[0] in ('and', 'or') and len(t) == 3 and \
+                            isinstance(t[1], tuple) and t[1][0] == 'coll':
+                        yield t
+                    for x in t:
+                        if isinstance(x, (tuple, list)):
+                            yield from combs(x)
+                elif isinstance(t, list):
+                    for x in t:
+                        yield from combs(x)
+            for cb in combs(R):
+                sym = cb[1][1]
+                ok = _known_not_single(p, sym)
+                key = (getattr(cb[2], 'lineno', line), cb[0], ok)
+                if key in arity_seen:
+                    continue
+                arity_seen.add(key)
+                ctx.ob(arity_rule, ok, W(getattr(cb[2], 'lineno', line)),
+                       f.qual, '%s over %s' % (U(cb[2].func), 'the collected '
+                                               'operands'),
+                       'built only when there is not exactly one operand'
+                       if ok else
+                       'the list-rule translator can build a one-operand '
+                       '%s: it prints as `(x)`, and parsing that text gives '
+                       '`x`, so the printed form of such a rule is not a '
+                       'fixed point (path: %s)' % (
+                           U(cb[2].func), p.cond_text()[-160:]))
         entered = bool(outer) and outer[0].pol and entry is not None
         if not entered:
             # empty rule: C01.CONST decides it
